@@ -25,7 +25,7 @@ SPEC = {
                 "accepted names, PyYAML/json/bson/pickle round trips on their domains. No axioms.",
         "design_ref": "DESIGN.md section 6 C04"},
     "streams": ["trees"],
-    "witnesses": [],
+    "witnesses": ["F58"],
     "rule": ("deterministic matrix: 23 awkward scalars (None, True/False, 0/1/-1, 10^18, -2^63, 0.0/-0.0/inf/-inf/NaN/5e-324, "
              "'', '1', 'true', 'null', ' ', markup, non-BMP, trailing newline) alone / inside a list / inside a map, 16 lone-surrogate "
              "strings and 5 lone-surrogate keys (json, yaml, pickle only: measured -- these round-trip them, bson and xml raise), 14 nested "
